@@ -43,6 +43,7 @@ pub struct Graph {
     pub raw_statics: Vec<String>,
     pub exp_statics: Vec<StaticItem>,
     pub makes_arena: Vec<usize>,
+    pub tags: Vec<&'static str>,
     pub callback_cert: Vec<usize>,
     pub collector_cert: Vec<usize>,
     pub fresh_roots: Vec<usize>,
@@ -767,13 +768,43 @@ pub fn extract(c: &Crate, items: &Items, raw: &Raw) -> Graph {
         });
     }
     // fresh-state constructors
+    // structural tags (no function name is pinned; the type names `Context`, `Metrics`, `Arena`,
+    // `MarkedArena` are):
+    //  * constructor of `Context` / `Metrics`: inherent fn of that type without receiver returning it;
+    //  * collector driver: `&mut self` method of `Context` that an `Arena` / `MarkedArena` method calls
+    //    and from which a primitive destructor / deallocator call is reachable.
+    let mut tags: Vec<&'static str> = vec![".none"; b.fns.len()];
+    let is_ctor = |f: &FnNode, ty: &str| f.self_head == ty && f.trait_name.is_empty() && f.recv == "none" && f.parent.is_none() && f.ret_owned.iter().any(|x| x == ty);
+    let reaches_prim: BTreeSet<usize> = {
+        let mut seen: BTreeSet<usize> = prim.iter().copied().collect();
+        let mut stack: Vec<usize> = seen.iter().copied().collect();
+        while let Some(x) = stack.pop() {
+            for (a, g) in &edges {
+                if *g == x && seen.insert(*a) {
+                    stack.push(*a);
+                }
+            }
+        }
+        seen
+    };
     let mut fresh_roots = vec![];
     for (i, f) in b.fns.iter().enumerate() {
-        if f.name == "Context::new" || f.name == "Metrics::new" {
+        if is_ctor(f, "Context") {
+            tags[i] = ".contextNew";
             fresh_roots.push(i);
+        } else if is_ctor(f, "Metrics") {
+            tags[i] = ".metricsNew";
+            fresh_roots.push(i);
+        } else if f.self_head == "Context"
+            && f.recv == "refMut"
+            && f.trait_name.is_empty()
+            && reaches_prim.contains(&i)
+            && edges.iter().any(|(a, g)| *g == i && ["Arena", "MarkedArena"].contains(&b.fns[*a].self_head.as_str()))
+        {
+            tags[i] = ".doCollection";
         }
     }
-    if fresh_roots.len() != 2 {
+    if !tags.contains(&".contextNew") || !tags.contains(&".metricsNew") {
         unclassified.push("Context::new / Metrics::new not found".into());
     }
     let mut seen: BTreeSet<usize> = fresh_roots.iter().copied().collect();
@@ -809,14 +840,18 @@ pub fn extract(c: &Crate, items: &Items, raw: &Raw) -> Graph {
     for (_, s) in &items.structs {
         if s.ident == "MarkedArena" {
             if let Some(f) = s.fields.iter().next() {
-                marked_arena_field = pretty(&toks(&f.ty));
+                // canonical form: lifetime / parameter names are free
+                marked_arena_field = match &f.ty {
+                    Type::Reference(r) if r.mutability.is_some() && type_path(&r.elem).map(last_seg).as_deref() == Some("Arena") => "&mut Arena".to_string(),
+                    other => pretty(&toks(other)),
+                };
             }
         }
     }
     let constructs_marked_arena: Vec<usize> =
         b.fns.iter().enumerate().filter(|(_, f)| f.lit_owned.iter().any(|x| x == "MarkedArena")).map(|(i, _)| i).collect();
-    if !b.fns.iter().any(|f| f.name == "Context::do_collection") {
-        unclassified.push("Context::do_collection not found".into());
+    if !tags.contains(&".doCollection") {
+        unclassified.push("no collector driver found (a `&mut self` method of `Context` called from an `Arena` method and reaching a destructor)".into());
     }
     for u in &unresolved {
         if let Some(m) = u.strip_prefix("macro: ") {
@@ -826,7 +861,7 @@ pub fn extract(c: &Crate, items: &Items, raw: &Raw) -> Graph {
     let _ = (free_nodes, impl_nodes);
     // Closure certificates (checked, not trusted, by the Lean side: `closedB`, roots ⊆ set).
     // The root rule mirrors `GcArena.CallGraphDefs.callbackRoots`.
-    let ctx_new: Vec<usize> = b.fns.iter().enumerate().filter(|(_, f)| f.name == "Context::new").map(|(i, _)| i).collect();
+    let ctx_new: Vec<usize> = (0..b.fns.len()).filter(|i| tags[*i] == ".contextNew").collect();
     let makes_arena: Vec<usize> = {
         let mut v: Vec<usize> = path_edges.iter().filter(|(_, g)| ctx_new.contains(g)).map(|(a, _)| *a).collect();
         v.sort();
@@ -860,10 +895,11 @@ pub fn extract(c: &Crate, items: &Items, raw: &Raw) -> Graph {
     let cb_edges: Vec<(usize, usize)> = edges.iter().copied().filter(|(a, _)| !cut.contains(a)).collect();
     let callback_cert = close(cb_roots, &cb_edges);
     let rev: Vec<(usize, usize)> = edges.iter().map(|(a, g)| (*g, *a)).collect();
-    let dc: Vec<usize> = b.fns.iter().enumerate().filter(|(_, f)| f.name == "Context::do_collection").map(|(i, _)| i).collect();
+    let dc: Vec<usize> = (0..b.fns.len()).filter(|i| tags[*i] == ".doCollection").collect();
     let collector_cert = close(dc, &rev);
     Graph {
         makes_arena,
+        tags,
         callback_cert,
         collector_cert,
         fns: b.fns,
@@ -897,17 +933,7 @@ impl Graph {
                     "MarkedArena" => ".markedArena",
                     _ => ".other",
                 };
-                let tag = match f.name.as_str() {
-                    "Context::do_collection" => ".doCollection",
-                    "Context::sweep_one" => ".sweepOne",
-                    "<Context as Drop>::drop" => ".contextDrop",
-                    "<DropAll as Drop>::drop" => ".dropAllDrop",
-                    "GcPtr::drop_in_place" => ".gcPtrDropInPlace",
-                    "GcPtr::dealloc" => ".gcPtrDealloc",
-                    "Context::new" => ".contextNew",
-                    "Metrics::new" => ".metricsNew",
-                    _ => ".none",
-                };
+                let tag = self.tags.get(i).copied().unwrap_or(".none");
                 format!(
                     "  /- {i} -/ {{ name := {}, selfKind := {}, recv := .{}, clientCallable := {}, isUnsafe := {}, isDropImpl := {}, isBuilder := {}, makesArena := {}, tag := {} }}",
                     lean_str(&f.name),
